@@ -315,7 +315,7 @@ def run(chk):
     if sres.violated:
         raise tlc.MachineryError('Session model violates %s' % sres.violated)
     recs = [r for r in sres.records if 't' in r]
-    cap = 6000 if quick else 250000
+    cap = 6000 if quick else 40000
     chk.notes['session_interleavings_enumerated'] = len(recs)
     if len(recs) > cap:
         rng.shuffle(recs)
@@ -336,7 +336,7 @@ def run(chk):
     tlc.write_mc(dl, 'MCL', 'Session', ['MCForms == {"str"}', 'MCEdits == {"append", "args"}'],
                  'SPECIFICATION Spec\nCONSTANTS\n NSrc = %d\n Forms <- MCForms\n EditKinds <- MCEdits\n MaxSteps = %d\n'
                  'INVARIANT Dump\nPROPERTY Isolation\nCHECK_DEADLOCK FALSE\n' % (len(POOL), steps))
-    lres = tlc.run(dl, 'MCL', timeout=3000, simulate=2 if quick else 40, depth=steps + 2, seed=chk.seed)
+    lres = tlc.run(dl, 'MCL', timeout=3000, simulate=2 if quick else 6, depth=steps + 2, seed=chk.seed)
     chk.add_tlc('long-sessions', lres, 'Session: simulated behaviours of %d steps over %d sources' % (steps, len(POOL)))
     if lres.violated:
         raise tlc.MachineryError('Session model violates %s' % lres.violated)
